@@ -750,7 +750,10 @@ func init() {
 				p.SiacoinOutput.Address = thief.addrs[3].addr
 				return true
 			}, "parent address replaced by the spender's own address, policy satisfied for it", false)
-			try("M1-id", func(p *types.SiacoinElement, t *types.V2Transaction) bool { p.ID[w.tape.Choose(32)] ^= 1 << w.tape.Choose(8); return true }, "parent ID altered, re-signed", false)
+			try("M1-id", func(p *types.SiacoinElement, t *types.V2Transaction) bool {
+				p.ID[w.tape.Choose(32)] ^= 1 << w.tape.Choose(8)
+				return true
+			}, "parent ID altered, re-signed", false)
 			try("M1-leaf-index", func(p *types.SiacoinElement, t *types.V2Transaction) bool {
 				if w.tape.Chance(1, 2) || p.StateElement.LeafIndex == 0 {
 					p.StateElement.LeafIndex++
@@ -1110,8 +1113,8 @@ func (w *World) spendV2Raw(s consensus.State, e types.SiacoinElement) (types.V2T
 		SiacoinOutputs: []types.SiacoinOutput{{Value: e.SiacoinOutput.Value, Address: w.advAddr()}},
 	}
 	c := wl.satisfyCtx(s, s.InputSigHash(txn))
-	c.height = ^uint64(0) >> 1                  // pretend every height lock has passed
-	c.median = time.Unix(1<<40, 0)              // and every time lock
+	c.height = ^uint64(0) >> 1     // pretend every height lock has passed
+	c.median = time.Unix(1<<40, 0) // and every time lock
 	rp, sigs, pre, ok := satisfy(ai.policyFor(), c)
 	if !ok {
 		return txn, false
